@@ -40,12 +40,39 @@ def obligation(prop, name, functions=(), tier='quick'):
     return deco
 
 
+def is_nonlinear(t):
+    """does t contain a product / quotient of two non-numeral terms, or an uninterpreted theory function?"""
+    if isinstance(t, bool):
+        return False
+    seen, stack = set(), [t]
+    while stack:
+        x = stack.pop()
+        if x.get_id() in seen:
+            continue
+        seen.add(x.get_id())
+        if z3.is_app(x):
+            k = x.decl().kind()
+            ch = x.children()
+            if k == z3.Z3_OP_MUL and sum(1 for c in ch if not (z3.is_rational_value(c) or z3.is_int_value(c))) >= 2:
+                return True
+            if k in (z3.Z3_OP_DIV, z3.Z3_OP_IDIV, z3.Z3_OP_MOD, z3.Z3_OP_POWER) and not (z3.is_rational_value(ch[1]) or z3.is_int_value(ch[1])):
+                return True
+            stack.extend(ch)
+        elif z3.is_quantifier(x):
+            stack.append(x.body())
+    return False
+
+
+def _z(b):
+    return z3.BoolVal(b) if isinstance(b, bool) else b
+
+
 class Item:
     def __init__(self, name, kind, hyps, goal, lineno=None, expect='proved', replay=None, note=None, poly=False):
         self.name = name
         self.kind = kind
-        self.hyps = hyps
-        self.goal = goal
+        self.hyps = [_z(h) for h in hyps]
+        self.goal = _z(goal)
         self.lineno = lineno
         self.expect = expect     # 'proved' | 'refuted' (canary)
         self.replay = replay
@@ -76,6 +103,7 @@ class OB:
         self.inputs = {}         # name -> z3 const (contract level variables, for models/replay)
         self.safety_on = True
         self.skip_kinds = set()  # side-obligation kinds already discharged by another generator
+        self.side_hints = []     # (label substring | kind, [proved facts], hide_nonlinear): hints for engine-generated obligations
         self.safety_exempt = []  # substrings of safety labels that are not enforced (with reason)
         self.assumptions = []
         self.functions = set()
@@ -85,6 +113,7 @@ class OB:
         self.results = {}
         self._realfn = None
         self._rtol = 1e-9
+        self.defs = {}
 
     # ---- variables
     def real(self, name):
@@ -110,8 +139,8 @@ class OB:
 
     def assume(self, *conds):
         for c in conds:
-            self.hyps.append(c)
-            self.pre.append(c)
+            self.hyps.append(_z(c))
+            self.pre.append(_z(c))
 
     def note(self, text):
         self.notes.append(text)
@@ -205,9 +234,11 @@ class OB:
         except Unsupported as e:
             raise Unbound(str(e))
         for p in ps:
-            p.pc = p.pc[len(saved):] if len(p.pc) >= len(saved) else p.pc
+            k = len(saved)
+            p.pc = p.pc[k:] if len(p.pc) >= k else p.pc
+            p.dec_idx = {i - k for i in p.dec_idx if i >= k}
             for ob in p.obs:
-                ob.hyps = ob.hyps[len(saved):]
+                ob.hyps = ob.hyps[k:]
         for a in self.I.used_assumptions:
             self.trusted(npmodel.A_TEXT.get(a, a))
         return ps
@@ -226,7 +257,13 @@ class OB:
                 continue
             if ob.kind == 'safety' and (not self.safety_on or any(s in ob.label for s in self.safety_exempt)):
                 continue
-            self.items.append(Item(self._side_name(label, ob), ob.kind, self.hyps + ob.hyps, ob.goal, ob.lineno,
+            hyps = self.hyps + ob.hyps
+            for sub, facts, hide in self.side_hints:
+                if sub in ob.label or sub == ob.kind:
+                    if hide:
+                        hyps = [h for h in hyps if not is_nonlinear(h)]
+                    hyps = hyps + list(facts)
+            self.items.append(Item(self._side_name(label, ob), ob.kind, hyps, ob.goal, ob.lineno,
                                    note=ob.label, replay=self._replayer()))
 
     def named(self, name, value):
@@ -245,6 +282,7 @@ class OB:
         else:
             c = z3.Real(name)
         self.hyps.append(c == t)
+        self.defs[name] = self.hyps[-1]
         self.results[name] = c
         return c
 
@@ -287,9 +325,27 @@ class OB:
         """exactly one feasible normally-returning path; its path condition joins the hypotheses"""
         ps = self.paths(thunk)
         rets = [p for p in ps if p.kind == 'return']
-        if len(rets) != 1:
+        if len(rets) == 0:
             kinds = [(p.kind, getattr(p.exc, 'exc_type', None), getattr(p.exc, 'lineno', None)) for p in ps]
-            raise Unbound(f"{label or self.name}: expected one returning path, got {kinds}")
+            raise Unbound(f"{label or self.name}: no returning path, got {kinds}")
+        if len(rets) > 1:
+            result, conds = self._merge(rets)
+            if not allow_raise:
+                for p in ps:
+                    if p.kind == 'raise':
+                        self.items.append(Item(f"{label or 'run'}.no-raise[{p.exc.exc_type}]", 'no-raise', self.hyps + p.pc, z3.BoolVal(False),
+                                               p.exc.lineno, note=f"raises {p.exc.exc_type} at line {p.exc.lineno}"))
+            for p in ps:
+                if p.kind in ('return', 'end'):
+                    self.take_side_obligations(p, label or 'run')
+            self.hyps.append(or_(*conds))
+            for p, c in zip(rets, conds):
+                for i, a in enumerate(p.pc):
+                    if i not in p.dec_idx:
+                        f = z3.Implies(c, a)
+                        if not any(f.eq(h) for h in self.hyps[-40:]):
+                            self.hyps.append(f)
+            return result
         if not allow_raise and any(p.kind == 'raise' for p in ps):
             # a raising path that is feasible under the contract's precondition
             for p in ps:
@@ -305,11 +361,69 @@ class OB:
         self.hyps.extend(p.pc)
         return p.result
 
-    def prove(self, label, goal, under=None, kind='post', expect='proved', replay=None, poly=False):
-        hyps = list(self.hyps) + (list(under) if under else [])
+    def _merge(self, rets):
+        """merge the results of several returning paths into one value: ite over the path conditions"""
+        conds = [and_(*[c for i, c in enumerate(p.pc) if i in p.dec_idx]) for p in rets]
+
+        def merge(vals):
+            v0 = vals[0]
+            if all(isinstance(v, SV) for v in vals):
+                r = vals[-1]
+                for c, v in zip(reversed(conds[:-1]), reversed(vals[:-1])):
+                    x = npmodel.ite(self.I, c, v, r)
+                    r = SV(x.t, x.pinf, x.ninf, None, npmodel.merge_kind(v, r), v.index)
+                return r
+            if all(isinstance(v, tuple) for v in vals) and len({len(v) for v in vals}) == 1:
+                return tuple(merge([v[i] for v in vals]) for i in range(len(v0)))
+            if all(isinstance(v, PList) for v in vals) and len({len(v.items) for v in vals}) == 1:
+                return PList([merge([v.items[i] for v in vals]) for i in range(len(v0.items))], v0.kind)
+            if all(isinstance(v, (int, float, str, bool, type(None))) for v in vals) and len(set(map(repr, vals))) == 1:
+                return v0
+            if all(isinstance(v, (int, float)) and not isinstance(v, bool) for v in vals):
+                return merge([SV(v) for v in vals])
+            raise Unbound(f"cannot merge path results of types {[type(v).__name__ for v in vals]}")
+        return merge([p.result for p in rets]), conds
+
+    def prove(self, label, goal, under=None, kind='post', expect='proved', replay=None, poly=False, only=None, hide_nonlinear=False):
+        """under: extra hypotheses (stated by the contract, e.g. a path condition).
+        only: lemma boundary - discharge the goal from these formulas alone; each must be a current hypothesis
+        or the goal of an earlier item of this generator (checked), so nothing is assumed that is not proved."""
+        if hide_nonlinear:
+            hyps = [h for h in self.hyps if not is_nonlinear(h)] + (list(under) if under else [])
+            if replay is None:
+                replay = self._replayer()
+            self.items.append(Item(label, kind, hyps, goal, expect=expect, replay=replay, poly=poly))
+            return goal
+        if only is not None:
+            have = {h.get_id() for h in self.hyps if hasattr(h, 'get_id')}
+            have |= {it.goal.get_id() for it in self.items if it.expect == 'proved'}
+            for h in only:
+                if _z(h).get_id() not in have:
+                    raise ValueError(f"{label}: hypothesis given in only= is neither a contract hypothesis nor an earlier goal: {h}")
+            hyps = list(only)
+        else:
+            hyps = list(self.hyps) + (list(under) if under else [])
         if replay is None:
             replay = self._replayer()
         self.items.append(Item(label, kind, hyps, goal, expect=expect, replay=replay, poly=poly))
+        return goal
+
+    def hint(self, which, facts, hide_nonlinear=False):
+        """use already proved facts (goals of earlier items / hypotheses) when discharging engine-generated side
+        obligations whose label contains `which`; optionally hide the nonlinear hypotheses from the solver"""
+        have = {h.get_id() for h in self.hyps if hasattr(h, 'get_id')}
+        have |= {it.goal.get_id() for it in self.items if it.expect == 'proved'}
+        for f in facts:
+            if _z(f).get_id() not in have:
+                raise ValueError(f"hint {which}: fact is neither a hypothesis nor an earlier goal: {f}")
+        self.side_hints.append((which, list(facts), hide_nonlinear))
+
+    def define(self, name, term):
+        """fresh constant with a defining hypothesis (hides a sub-term behind a name: lemma boundary)"""
+        c = z3.Real(name) if not z3.is_int(term) else z3.Int(name)
+        d = c == term
+        self.hyps.append(d)
+        return c, d
 
     def canary(self, label, goal, under=None):
         """a deliberately false statement: must be refuted (guards against vacuity / unsound engine)"""
@@ -520,7 +634,7 @@ def run_generator(prop, name, second_solver=False):
             except Exception as e:   # noqa
                 out['crosscheck'] = {'status': 'error', 'reason': f"{type(e).__name__}: {e}", 'traceback': traceback.format_exc()}
         if ob.items:
-            hy = ob.hyps
+            hy = [_z(h) for h in ob.hyps]
             ax = sym.instantiate_axioms(hy)
             st, _, be, secs = check_sat(list(hy) + ax, timeout_ms=5000, use_cvc5=False)
             out['cover'] = st
